@@ -1058,13 +1058,16 @@ package connect
 //@ constfield duplexHTTPCall.requestBodyReader, duplexHTTPCall.requestBodyWriter, duplexHTTPCall.ctx, duplexHTTPCall.request, duplexHTTPCall.httpClient
 
 //@ func (*connectStreamingClientConn).Receive(cc, msg) err
-//@   tags C04, C06
+//@   tags C04, C06, C11, C02
+//@   requires cc.responseTrailer != cc.responseHeader && cc.unmarshaler.trailer != cc.responseTrailer
 //@   requires cc != nil && cc.duplexCall != nil && cc.duplexCall.requestBodyReader != nil && cc.responseTrailer != nil && cc.responseHeader != nil
 //@   requires cc.unmarshaler.envelopeReader.reader != nil && !pooled(cc.unmarshaler.envelopeReader.reader) && termerr(cc.unmarshaler.envelopeReader.reader) != errSpecialEnvelope && cc.unmarshaler.envelopeReader.bufferPool != nil && cc.unmarshaler.envelopeReader.codec != nil
 //@   assigns everything
 //@   ensures callres("(*connectStreamingUnmarshaler).Unmarshal", 1) == nil ==> err == nil                // label: a-decoded-message-is-delivered
 //@   ensures err != nil && Is(err, io.EOF) ==> Is(callres("(*connectStreamingUnmarshaler).Unmarshal", 1), errSpecialEnvelope) || (err == cc.unmarshaler.endStreamErr && (callres("(*connectStreamingUnmarshaler).Unmarshal", 1) == errSpecialEnvelope || old(cc.unmarshaler.endStreamErr) != nil))   // label: clean-end-only-after-the-end-of-stream-envelope
 //@   ensures err != nil ==> coded(err)                                                                  // label: errors-are-coded
+//@   assert@call(mergeHeaders#1): arg0 == cc.responseTrailer && arg1 == callres("(*connectStreamingUnmarshaler).Trailer", 1)   // label: end-of-stream-metadata-joins-the-response-trailers   // tags: C11, C02
+//@   ensures called("(*connectStreamingUnmarshaler).EndStreamError", 1) && callres("(*connectStreamingUnmarshaler).EndStreamError", 1) != nil ==> err == callres("(*connectStreamingUnmarshaler).EndStreamError", 1) && (let e := callres("(*connectStreamingUnmarshaler).EndStreamError", 1) in e.meta != nil && (forall k seq :: {mapval(e.meta, k)} rawvals(e.meta, k) == rawvals(cc.responseHeader, k) ++ rawvals(cc.responseTrailer, k)))   // label: the-server's-error-carries-response-headers-then-trailers-as-metadata   // tags: C11, C02
 
 // ---------------------------------------------------------------------------
 // C06: every *Error built while decoding a response has a non-zero code
@@ -1179,6 +1182,8 @@ package connect
 //@   requires hc.web ==> envOK(hc.marshaler.envelopeWriter)
 //@   nosafety overflow
 //@   assigns everything
+//@   assert@call(grpcErrorToTrailer#1): !hc.wroteToBody ==> (forall k seq :: {mapval(hdrOf(hc.responseWriter), k)} mapdom(hc.responseHeader, k) ==> mapdom(hdrOf(hc.responseWriter), k) && mapval(hdrOf(hc.responseWriter), k) == old(rawvals(hdrOf(hc.responseWriter), k)) ++ mapval(hc.responseHeader, k))   // label: unsent-response-headers-are-sent-before-any-trailers   // tags: C11
+//@   assert@call(grpcErrorToTrailer#1): arg3 == err && (forall k seq :: {mapval(cast(arg1, "http.Header"), k)} mapdom(hc.responseTrailer, k) ==> mapdom(cast(arg1, "http.Header"), k) && mapval(cast(arg1, "http.Header"), k) == mapval(hc.responseTrailer, k))   // label: the-handler's-error-and-trailers-become-the-trailing-metadata   // tags: C11, C02
 //@   loop 1:
 //@     invariant hdrOf(hc.responseWriter) != mergedTrailers && hdrOf(hc.responseWriter) != nil
 //@     invariant forall q seq :: {iterated(q)} iterated(q) ==> mapdom(mergedTrailers, q)
@@ -1221,7 +1226,7 @@ package connect
 
 //@ constfield connectUnaryClientConn.responseHeader, connectUnaryClientConn.responseTrailer, connectUnaryClientConn.compressionPools, connectUnaryClientConn.bufferPool, connectUnaryClientConn.duplexCall
 //@ func (*connectUnaryClientConn).validateResponse(cc, response) res
-//@   tags C06, C09, C11
+//@   tags C05, C06, C08, C09, C11
 //@   requires cc != nil && response != nil && cc.responseHeader != nil && cc.responseTrailer != nil && cc.compressionPools != nil
 //@   requires cc.responseHeader != response.Header && cc.responseTrailer != response.Header && cc.responseHeader != cc.responseTrailer
 //@   requires response.Body != nil && !pooled(response.Body) && !typeis(response.Body, "*bytes.Buffer") && !typeis(response.Body, "*io.LimitedReader") && cc.bufferPool != nil
@@ -1230,6 +1235,8 @@ package connect
 //@   ensures res != nil ==> asErr(res) == res && res.code != 0                                          // label: never-the-zero-code
 //@   ensures old(response.StatusCode) != 200 ==> res != nil                                             // label: non-200-is-an-error
 //@   ensures old(response.StatusCode) != 200 && called("NewError", 1) ==> res.code == callres("connectHTTPToCode", 2)   // label: without-a-valid-wire-error-the-code-comes-from-the-http-status
+//@   assert@call(readOnlyCompressionPools.Get#1): arg1 == hget(response.Header, "Content-Encoding")   // label: decoder-chosen-from-the-content-encoding-header   // tags: C05, C08
+//@   assert@call((*connectUnaryUnmarshaler).UnmarshalFunc#1): arg0.reader == response.Body && arg0.bufferPool == cc.bufferPool && arg0.compressionPool == callres("readOnlyCompressionPools.Get", 1) && arg0.readMaxBytes == 0 && !arg0.alreadyRead   // label: error-body-is-read-with-the-response's-encoding   // tags: C05, C06, C08
 //@   assert@call((http.Header).Get#1): forall k seq :: {mapval(response.Header, k)} mapdom(response.Header, k) ==> (if isTrailerKey(k) then mapdom(cc.responseTrailer, k[8:]) && mapval(cc.responseTrailer, k[8:]) == mapval(response.Header, k) else mapdom(cc.responseHeader, k) && mapval(cc.responseHeader, k) == mapval(response.Header, k))   // label: headers-and-prefixed-trailers-are-split-with-values-intact   // tags: C11
 //@   loop 1:
 //@     invariant forall q seq :: {iterated(q)} iterated(q) ==> mapdom(response.Header, q)
